@@ -97,6 +97,10 @@ func (fv *FV) execStmt(st *State, s ast.Stmt, label string) *State {
 					v = fv.asParam(v, obj.Type())
 				} else if isUserByRef(obj.Type()) {
 					v = fv.allocZero(st, obj.Type(), x.Pos()) // a struct held by reference: a fresh zero object
+				} else if at, ok := obj.Type().Underlying().(*types.Array); ok {
+					// `var a [N]T`: a fresh zeroed backing array of N elements
+					n := fmt.Sprint(at.Len())
+					v = fv.makeSlice(st, types.NewSlice(at.Elem()), at.Elem(), n, n)
 				} else {
 					v = fv.zero(obj.Type())
 				}
@@ -197,6 +201,13 @@ func (fv *FV) setVar(st *State, obj types.Object, v Term) {
 }
 
 func (fv *FV) execAssign(st *State, x *ast.AssignStmt) {
+	for _, r := range x.Rhs {
+		if tv, ok := fv.info.Types[r]; ok && tv.Type != nil {
+			if _, isArr := tv.Type.Underlying().(*types.Array); isArr {
+				fv.fail(x.Pos(), "unsupported: assignment copies an array value")
+			}
+		}
+	}
 	// op-assign
 	if x.Tok != token.ASSIGN && x.Tok != token.DEFINE {
 		cur := fv.evalExpr(st, x.Lhs[0])
